@@ -103,11 +103,16 @@ VIEWS = [
     # a view-local variable that shadows a primitive, inside this view only
     ('total < 50', lambda s: s['total'] / s['months'] < 50, ['total = sum(payments) / months']),
     ('months == 1', lambda s: len(s['payments']) == 1, ['months = count(payments)']),
+    # names are case-insensitive in the language: a variable may be written (and referred to) with capitals
+    ('total > Limit', lambda s: s['total'] > 900, ['Limit = 900']),
+    ('total > GLOB', lambda s: s['total'] > 40),
+    ('total > CapGlob', lambda s: s['total'] > 40),
+    ('total > capglob + low', lambda s: s['total'] > 140, ['Low = 100']),
 ]
 
 
 def views_text(idxs):
-    lines = ['glob = 40', '']
+    lines = ['glob = 40', 'CapGlob = 40', '']
     for i in idxs:
         lines.append('[V%d]' % i)
         if 'lim' in VIEWS[i][0]:
@@ -151,6 +156,25 @@ def check(idxs, spec):
     return got
 
 
+def check_duplicate_names(spec):
+    """two views with one name: the file is rejected, or the first view keeps exactly the membership it has alone (views are independent)"""
+    from tally.section_engine import SectionParseError
+    for i, j in ((0, 5), (5, 0), (1, 1)):
+        text = 'glob = 40\n\n[Same]\nfilter: %s\n\n[Other]\nfilter: total > 0\n\n[Same]\nfilter: %s\n' % (VIEWS[i][0], VIEWS[j][0])
+        w = {'duplicate_names': [i, j], 'filters': [VIEWS[i][0], VIEWS[j][0]]}
+        O.case(('dup', i, j))
+        try:
+            cfg = parse_sections(text)
+        except SectionParseError:
+            continue
+        stats = analyze_transactions([dict(t, tags=list(t['tags'])) for t in TXNS])
+        res = classify_by_sections(stats['by_merchant'], cfg, stats['num_months'])
+        got = [m for m, _ in res.get('Same', [])]
+        want = sorted(m for m, s in spec.items() if _safe(VIEWS[i][1], s))
+        if got != want:
+            O.fail('C10.duplicate_view_names_merged', w, {'first view alone': want}, {'listed under the name': got}, 'parse_sections accepts the file; classify_by_sections')
+
+
 def _safe(pred, s):
     try:
         return bool(pred(s))
@@ -165,7 +189,10 @@ def _k(text):
 def main():
     spec = merchants_spec()
     if O.witness:
-        check(O.witness['views'], spec)
+        if 'duplicate_names' in O.witness:
+            check_duplicate_names(spec)
+        else:
+            check(O.witness['views'], spec)
         O.finish()
     n = len(VIEWS)
     singles = {}
@@ -192,6 +219,7 @@ def main():
                     if g is not None and v in singles and g.get('V%d' % v) != singles[v]:
                         O.fail('C10.views_not_independent', {'views': order, 'filters': [VIEWS[x][0] for x in order]}, singles[v], g.get('V%d' % v))
     check(list(range(n)), spec)
+    check_duplicate_names(spec)
     check(list(reversed(range(n))), spec)
     O.sample({'views': [2, 14], 'filters': [VIEWS[2][0], VIEWS[14][0]]})
     O.finish()
